@@ -97,6 +97,8 @@ Declare Scope m_scope.
 Delimit Scope m_scope with m.
 Notation "x <- m ;; k" := (bind m (fun x => k))
   (at level 61, m at next level, right associativity) : m_scope.
+Notation "' pat <- m ;; k" := (bind m (fun x => match x with pat => k end))
+  (at level 61, pat pattern, m at next level, right associativity) : m_scope.
 Notation "m1 ;;; k" := (bind m1 (fun _ => k))
   (at level 61, right associativity) : m_scope.
 Open Scope m_scope.
